@@ -24,6 +24,8 @@
 //          Vctl   control character (0x01 TAB LF 0x7f) in the middle    V8bit byte >= 0x80 in the middle
 //   header tokens: kv -> key '=' value, ows sp/tab/both -> blanks around the member, empty -> "" or blanks,
 //          noeq -> a word without '='; members joined with ','.
+// Related keys: `inst % 3` selects how the VALID keys of one behaviour relate to each other (independent /
+// prefix chain / same length differing in the last characters), see struct Conc.
 // Every string handed to the API lives in an exactly-sized heap buffer without NUL terminator that is
 // overwritten and freed right after the call (ASan + aliasing detection).
 #include <cstdint>
@@ -108,7 +110,30 @@ struct Conc
   uint64_t inst;
   std::map<std::string, std::string> cache;       // "k:class:n" -> string
   std::map<std::string, json> key_abs, val_abs;   // reverse maps (recorder)
-  explicit Conc(uint64_t i) : inst(i) {}
+  // relation mode of the valid keys of one behaviour / execution (abstract keys are distinct, so related
+  // strings must behave exactly like unrelated ones):
+  //   0 independent (table above)
+  //   1 chain    every s key is  stem + tail[0..L(n))  with L injective: any two s keys are proper prefix /
+  //              extension of one another; m keys are  <an s-chain string> '@' sys[0..1+n%14)  (tenant shared
+  //              by 14 ids and equal to an s key: "t" vs "t@s" vs "t@s2"); b keys extend every s key
+  //   2 sibling  all s keys (and all m keys) have the same length and differ only in the last two characters
+  // In modes 1/2 a Kup key is a valid key of the behaviour with one letter in upper case (equal up to case).
+  int mode;
+  std::string stem, ctail, sstem, stail;
+  size_t ca, cb;
+  explicit Conc(uint64_t i) : inst(i), mode((int)(i % 3))
+  {
+    Rng r(hash_str("relation", inst));
+    stem  = std::string(1, r.pick(LC)) + tail(r, mode == 2 ? 3 + r.below(10) : r.below(3), REST);
+    ctail = tail(r, 256, REST);
+    sstem = std::string(1, r.pick(LC));
+    stail = tail(r, 16, REST);
+    ca    = 1 + r.below(210);
+    cb    = r.below(211);
+  }
+  size_t chain_len(long n) const { return 1 + (size_t)((n % 211) * ca + cb) % 211; }   // injective for n < 211
+  std::string chain(long n) const { return stem + ctail.substr(0, chain_len(n)); }
+  std::string last2(long n) const { return std::string(1, REST[(n / 40) % 40]) + REST[n % 40]; }
 
   static std::string tail(Rng &r, size_t n, const std::string &set)
   {
@@ -128,7 +153,32 @@ struct Conc
     std::string num = std::to_string(n);
     std::string s;
     auto simple = [&](size_t maxtail) { return std::string(1, r.pick(LC)) + num + "/" + tail(r, r.below(maxtail + 1), REST); };
-    if (c == "s")
+    if (c == "s" && mode == 1 && n < 211)
+      s = chain(n);
+    else if (c == "s" && mode == 2 && n < 1600)
+      s = stem + last2(n);
+    else if (c == "m" && mode == 1 && n < 211 * 14)
+      s = chain(n / 14 + 1) + "@" + sstem + stail.substr(0, (size_t)(n % 14));
+    else if (c == "m" && mode == 2 && n < 1600)
+      s = stem + "@" + sstem + stail.substr(0, 6) + last2(n);
+    else if (c == "b" && mode == 1)
+    {
+      s = stem + ctail.substr(0, 212) + "/" + num + "/";
+      s += tail(r, 256 - s.size(), REST);
+    }
+    else if (c == "Kup" && mode != 0)
+    {
+      s = key("s", 1 + (long)r.below(32));
+      size_t p = 0;
+      while (p < s.size() && !(s[p] >= 'a' && s[p] <= 'z'))
+        ++p;
+      size_t q = s.size();
+      while (q > 0 && !(s[q - 1] >= 'a' && s[q - 1] <= 'z'))
+        --q;
+      p = (r.coin(50) && q > 0) ? q - 1 : p;       // first or last letter (the stem starts with a letter)
+      s[p] = (char)(s[p] - 32);
+    }
+    else if (c == "s")
       s = simple(12);
     else if (c == "m")
       s = std::string(1, r.pick(LC + DIG)) + num + "/" + tail(r, r.below(11), REST) + "@" + std::string(1, r.pick(LC)) +
@@ -369,6 +419,22 @@ static std::string observe(const TsPtr &ts, const List &exp, Rng &r, int gets)
   if (ts->Empty() != exp.empty())
     return "Empty() wrong";
   size_t n = exp.size();
+  // Get agrees with the entries also for what is NOT there: a proper prefix / a one-character extension of a
+  // member's key that is not itself a member's key is not found
+  for (size_t j = 0; j < n && (gets < 0 || j < 3); ++j)
+  {
+    const std::string &k = exp[gets < 0 ? j : r.below(n)].first;
+    std::string probes[2] = {k.substr(0, k.size() - 1), k + "0"};
+    for (auto &pk : probes)
+    {
+      bool member = false;
+      for (auto &m : exp)
+        member = member || m.first == pk;
+      std::string v;
+      if (!member && !pk.empty() && do_get(ts, pk, v))
+        return "Get(" + show(pk) + ") finds a key that is not in the list: " + show(v);
+    }
+  }
   size_t cnt = gets < 0 ? n : std::min<size_t>(n, (size_t)gets);
   for (size_t j = 0; j < cnt; ++j)
   {
@@ -514,6 +580,7 @@ static int replay(const char *path)
       ++si;
     }
     res["took"] = took;
+    res["mode"] = cz.mode;
     std::cout << res.dump() << "\n" << std::flush;
   }
   return 0;
@@ -531,7 +598,7 @@ static int record(uint64_t seed, int nexec, int len)
   {
     Rng r(seed * 1000003ull + x);
     Conc cz(r.next());
-    std::cout << json({{"e", "Cfg"}, {"x", x}}).dump() << "\n";
+    std::cout << json({{"e", "Cfg"}, {"x", x}, {"mode", cz.mode}}).dump() << "\n";
     // key universe of this execution: 12..40 valid keys with fixed classes
     size_t nk = (x % 3 == 0) ? 40 : 12 + r.below(8);
     std::vector<json> keys;
